@@ -43,12 +43,22 @@ fn unhex(s: &str) -> Vec<u8> {
     out
 }
 
+#[path = "../fill.rs"]
+mod fill;
+
 fn run_script(steps: Vec<Value>, mut sink: Box<dyn Write + Send>) -> bool {
     // returns false if a write failed (e.g. closed pipe)
     let mut ok = true;
     for s in steps {
         if let Some(h) = s.get("w").and_then(|x| x.as_str()) {
             let bytes = unhex(h);
+            if sink.write_all(&bytes).is_err() || sink.flush().is_err() {
+                ok = false;
+                break;
+            }
+        } else if let Some(f) = s.get("f").and_then(|x| x.as_array()) {
+            let n = |i: usize| f.get(i).and_then(|x| x.as_u64()).unwrap_or(0);
+            let bytes = fill::fill_bytes(n(0) as usize, n(1) as usize, n(2) as u32);
             if sink.write_all(&bytes).is_err() || sink.flush().is_err() {
                 ok = false;
                 break;
